@@ -46,7 +46,9 @@ func c09Gen(c *vfCtx, emit func(c09Case)) {
 										continue
 									}
 									variant := (mask + fmask + cnt + sa) % 4
-									sc := vfCleanScenario{DirSpell: []string{"", "", "slash", "dot"}[(mask+fmask+sa)%4], DirName: []string{"", "w.snap.d", "pkg[1]", ".snapshots"}[variant], Count: cnt, CI: ci, Sort: srt, Env: env, SFiles: map[string]string{}, Other: map[string]string{"notes.txt": "n", "snapnotes": "no dot"}, Dirs: []string{"d.snap"}}
+									sc := vfCleanScenario{DirSpell: []string{"", "", "slash", "dot"}[(mask+fmask+sa)%4], DirName: []string{"", "w.snap.d", "pkg[1]", ".snapshots"}[variant], Count: cnt, CI: ci, Sort: srt, Env: env, SFiles: map[string]string{}, Other: map[string]string{"notes.txt": "n", "snapnotes": "no dot",
+										// Go sources next to the snapshot directory, named after the stale files, holding no test function: without -run they protect nothing
+										"../stale.go": "package x\n\ntype fixture struct{}\n\nfunc (fixture) TestLike() {}\nfunc helper() {}\n", "../F.go": "package x\n\nvar _ = 1\n"}, Dirs: []string{"d.snap"}}
 									var es []vfEntry
 									if mask&1 != 0 {
 										es = append(es, staleEntryChoices[0])
